@@ -31,12 +31,13 @@ class HarnessTimeout(Exception):
 
 
 class Step:
-    __slots__ = ("tid", "kind", "enabled")
+    __slots__ = ("tid", "kind", "enabled", "candidates")
 
-    def __init__(self, tid: int, kind: str, enabled: tuple):
+    def __init__(self, tid: int, kind: str, enabled: tuple, candidates: tuple | None = None):
         self.tid = tid          # thread selected at this step
         self.kind = kind        # event it performed
-        self.enabled = enabled  # all threads that could have been selected
+        self.enabled = enabled  # all threads that were enabled
+        self.candidates = enabled if candidates is None else candidates  # those the exploration may branch to
 
 
 class Trace:
@@ -45,6 +46,7 @@ class Trace:
     def __init__(self):
         self.steps: list[Step] = []
         self.outcome: dict[int, Any] = {}      # tid -> ("ok", value) | ("exc", type name, text)
+        self.finish_step: dict[int, int] = {}  # tid -> number of steps taken when the thread was seen finished
         self.unfinished: list[int] = []        # threads still parked at the end
         self.deadlock = False                  # unfinished and none enabled
         self.mismatch: str | None = None       # requested schedule could not be followed
@@ -86,6 +88,8 @@ class Scheduler:
         tid = self.current()
         if tid is None:
             return
+        if self._aborting:
+            raise SchedAbort()
         self._pending[tid] = (kind, enabled or _always)
         self._back.release()
         self._wait_go(tid)
@@ -123,6 +127,12 @@ class Scheduler:
         if not self._back.acquire(timeout=self.watchdog):
             self._abort()
             raise HarnessTimeout(f"thread {tid} neither parked nor finished within {self.watchdog}s")
+        if tid in self._finished:
+            self.trace.finish_step.setdefault(tid, len(self.trace.steps))
+
+    def step_index(self) -> int:
+        """Index of the step being executed (valid inside a managed thread)."""
+        return len(self.trace.steps) - 1
 
     def _abort(self) -> None:
         self._aborting = True
@@ -134,9 +144,17 @@ class Scheduler:
     def enabled(self) -> list[int]:
         return [t for t in sorted(self._pending) if self._pending[t][1]()]
 
-    def run(self, schedule: Sequence[int] = (), complete: bool = True, max_steps: int = 10_000) -> Trace:
-        """Follow `schedule` (thread ids); afterwards, if `complete`, keep selecting the
-        lowest enabled thread until nothing is enabled."""
+    def run(self, schedule: Sequence[int] = (), complete: bool = True, max_steps: int = 10_000,
+            chooser: Callable[[list[int]], int] | None = None,
+            glue: Callable[[str], bool] | None = None,
+            script: Sequence[tuple] | None = None) -> Trace:
+        """Follow `schedule` (thread ids); afterwards, if `complete`, keep selecting a
+        thread (`chooser(enabled)`, default: the lowest enabled one) until nothing is
+        enabled.  `glue(kind)`: a thread whose next event is of such a kind is not
+        preempted before it (coarser interleavings: the step is recorded with that
+        thread as the only candidate).  `script`: instead of `schedule`, a list of
+        (tid, n) = n steps of tid | (tid, kind) = run tid until it has performed an
+        event of that kind | (tid, "end") = until it finishes."""
         n = len(self._bodies)
         self._go = [threading.Semaphore(0) for _ in range(n)]
         self._threads = [threading.Thread(target=self._worker, args=(t,), daemon=True) for t in range(n)]
@@ -147,19 +165,37 @@ class Scheduler:
             for t in range(n):          # run every thread up to its first event
                 self._resume(t)
             i = 0
+            last = None
+            todo = [list(x) for x in script] if script is not None else None
             while i < max_steps:
                 en = self.enabled()
-                if i < len(schedule):
+                cands = None
+                if todo is not None:
+                    while todo and (todo[0][0] in self._finished or todo[0][1] == 0):
+                        todo.pop(0)
+                if todo:
+                    t = todo[0][0]
+                elif todo is None and i < len(schedule):
                     t = schedule[i]
-                    if t not in en:
-                        tr.mismatch = f"step {i}: thread {t} not enabled (enabled: {en})"
-                        break
                 elif complete and en:
-                    t = en[0]
+                    t = chooser(en) if chooser is not None else en[0]
+                    if glue is not None and last in en and glue(self._pending[last][0]):
+                        t, cands = last, (last,)
                 else:
                     break
-                tr.steps.append(Step(t, self._pending[t][0], tuple(en)))
+                if t not in en:
+                    tr.mismatch = f"step {i}: thread {t} not enabled (enabled: {en})"
+                    break
+                kind = self._pending[t][0]
+                tr.steps.append(Step(t, kind, tuple(en), cands))
                 self._resume(t)
+                if todo:
+                    what = todo[0][1]
+                    if isinstance(what, int):
+                        todo[0][1] = what - 1
+                    elif what == kind:
+                        todo[0][1] = 0
+                last = t
                 i += 1
             tr.unfinished = [t for t in range(n) if t not in self._finished]
             tr.deadlock = bool(tr.unfinished) and not self.enabled() and tr.mismatch is None and i < max_steps
@@ -216,23 +252,35 @@ class SchedLock:
         return False
 
 
+class Explorer:
+    """Stateless enumeration of ALL maximal schedules.  `make_run(prefix)` must build a
+    fresh system, run it along `prefix` and complete it with the default policy
+    (lowest enabled thread / glue).  Every maximal schedule extending one of the
+    `roots` is produced exactly once (`roots` must be pairwise prefix-incomparable;
+    default: the empty prefix).  `pending` holds the prefixes whose subtrees are still
+    unexplored, so an enumeration can be split: explore breadth-first for a while,
+    then hand the pending prefixes to other processes as their `roots`."""
+
+    def __init__(self, make_run: Callable[[Sequence[int]], Trace], roots: Sequence[Sequence[int]] | None = None):
+        self.make_run = make_run
+        self.pending: list[list[int]] = [list(r) for r in roots] if roots is not None else [[]]
+        self.count = 0
+
+    def run(self, limit: int | None = None, breadth_first: bool = False) -> Iterator[Trace]:
+        n = 0
+        while self.pending and (limit is None or n < limit):
+            prefix = self.pending.pop(0) if breadth_first else self.pending.pop()
+            tr = self.make_run(prefix)
+            n += 1
+            self.count += 1
+            if tr.mismatch is None:
+                sched = tr.schedule
+                for i in range(len(sched) - 1, len(prefix) - 1, -1):
+                    for alt in tr.steps[i].candidates:
+                        if alt != sched[i]:
+                            self.pending.append(sched[:i] + [alt])
+            yield tr
+
+
 def explore(make_run: Callable[[Sequence[int]], Trace], limit: int | None = None) -> Iterator[Trace]:
-    """Stateless depth-first enumeration of ALL maximal schedules.  `make_run(prefix)`
-    must build a fresh system, run it along `prefix` and complete it with the
-    lowest-enabled policy.  Every maximal schedule is produced exactly once."""
-    stack: list[list[int]] = [[]]
-    count = 0
-    while stack:
-        prefix = stack.pop()
-        tr = make_run(prefix)
-        yield tr
-        count += 1
-        if limit is not None and count >= limit:
-            return
-        if tr.mismatch is not None:
-            continue
-        sched = tr.schedule
-        for i in range(len(sched) - 1, len(prefix) - 1, -1):
-            for alt in tr.steps[i].enabled:
-                if alt != sched[i]:
-                    stack.append(sched[:i] + [alt])
+    return Explorer(make_run).run(limit)
